@@ -767,7 +767,7 @@ static inline int myth_timedjoin_body(myth_thread_t th,
     while (1) {
       int err = hr_gettime(tp);
       assert(err == 0);
-      if (myth_timespec_gt(tp, abstime)) return EBUSY;
+      if (myth_timespec_gt(tp, abstime)) return ETIMEDOUT;
       if (myth_tryjoin_body(th, result) == 0) {
 	MYTH_VERIF_POINT(MYTH_VP_TIMEDJOIN_TRY, th, 0, 0);
 	return 0;
